@@ -151,8 +151,13 @@ impl Target {
     }
 
     pub fn read_mem(&self, addr: u64, len: usize) -> Option<Vec<u8>> {
+        // (seek + read, not pread: a worker may run under a policy that refuses pread64 to the dumper, see
+        // `forbid_fast_reads`)
+        use std::io::{Read, Seek, SeekFrom};
         let mut buf = vec![0u8; len];
-        self.mem.as_ref()?.read_exact_at(&mut buf, addr).ok()?;
+        let mut f = self.mem.as_ref()?;
+        f.seek(SeekFrom::Start(addr)).ok()?;
+        f.read_exact(&mut buf).ok()?;
         Some(buf)
     }
 
@@ -273,6 +278,9 @@ pub struct DumpCfg {
     /// another process seizes this thread just before the recorded request (after the earlier ones): it cannot be
     /// attached to any more
     pub trace_tid: Option<i32>,
+    /// run the recorded request on a thread of its own that may read the target's memory with PTRACE_PEEKDATA only
+    /// (`forbid_fast_reads`; a seccomp filter binds the thread that installs it, and children forked from it)
+    pub ptrace_only: bool,
 }
 
 impl DumpCfg {
@@ -549,9 +557,28 @@ pub fn dump_case(prop: &str, id: &str, t: &Target, cfg: &DumpCfg, dest: &mut Rec
     let mut tracer = cfg.trace_tid.and_then(crate::c01::spawn_tracer);
     let prev = std::panic::take_hook();
     std::panic::set_hook(Box::new(|_| {}));
-    DUMPER_TID.store(unsafe { libc::syscall(libc::SYS_gettid) } as i32, Ordering::SeqCst);
-    let res = std::panic::catch_unwind(std::panic::AssertUnwindSafe(|| w.dump(dest)));
-    DUMPER_TID.store(0, Ordering::SeqCst);
+    let mut filtered = false;
+    let res = if cfg.ptrace_only {
+        let w_ref = &mut w;
+        let dest_ref = &mut *dest;
+        let filtered_ref = &mut filtered;
+        std::thread::scope(|sc| {
+            sc.spawn(move || {
+                *filtered_ref = forbid_fast_reads();
+                DUMPER_TID.store(unsafe { libc::syscall(libc::SYS_gettid) } as i32, Ordering::SeqCst);
+                let r = std::panic::catch_unwind(std::panic::AssertUnwindSafe(|| w_ref.dump(dest_ref)));
+                DUMPER_TID.store(0, Ordering::SeqCst);
+                r
+            })
+            .join()
+            .unwrap_or_else(|e| Err(e))
+        })
+    } else {
+        DUMPER_TID.store(unsafe { libc::syscall(libc::SYS_gettid) } as i32, Ordering::SeqCst);
+        let r = std::panic::catch_unwind(std::panic::AssertUnwindSafe(|| w.dump(dest)));
+        DUMPER_TID.store(0, Ordering::SeqCst);
+        r
+    };
     std::panic::set_hook(prev);
     if let Some(mut c) = tracer.take() {
         let _ = c.kill();
@@ -581,7 +608,8 @@ pub fn dump_case(prop: &str, id: &str, t: &Target, cfg: &DumpCfg, dest: &mut Rec
         thr,
         states.join(","),
         t.pid,
-        if extra_fields.is_empty() { String::new() } else { format!(" {}", extra_fields) }
+        format!("{}{}", if extra_fields.is_empty() { String::new() } else { format!(" {}", extra_fields) },
+            if filtered { " readmode=ptrace" } else { "" })
     );
     DumpOutcome { result, image, line, img_path: format!("{}.img", base) }
 }
@@ -610,6 +638,33 @@ pub fn run_worker(args: &[String]) -> (Vec<String>, Option<i32>) {
     };
     let lines = String::from_utf8_lossy(&outp.stdout).lines().filter(|l| !l.trim().is_empty()).map(|l| l.to_string()).collect();
     (lines, outp.status.signal())
+}
+
+/// make `process_vm_readv` fail with ENOSYS and `pread64` with EPERM for this process from now on (seccomp filter): the
+/// dumper is left with PTRACE_PEEKDATA for reading the target's memory (a kernel without cross-memory attach, a sandbox)
+pub fn forbid_fast_reads() -> bool {
+    #[repr(C)]
+    struct SockFilter { code: u16, jt: u8, jf: u8, k: u32 }
+    #[repr(C)]
+    struct SockFprog { len: u16, filter: *const SockFilter }
+    const LD_W_ABS: u16 = 0x20;
+    const JEQ_K: u16 = 0x15;
+    const RET_K: u16 = 0x06;
+    const ALLOW: u32 = 0x7fff_0000;
+    let prog = [
+        SockFilter { code: LD_W_ABS, jt: 0, jf: 0, k: 0 },
+        SockFilter { code: JEQ_K, jt: 2, jf: 0, k: libc::SYS_process_vm_readv as u32 },
+        SockFilter { code: JEQ_K, jt: 2, jf: 0, k: libc::SYS_pread64 as u32 },
+        SockFilter { code: RET_K, jt: 0, jf: 0, k: ALLOW },
+        SockFilter { code: RET_K, jt: 0, jf: 0, k: 0x0005_0000 | 38 },      // ENOSYS
+        SockFilter { code: RET_K, jt: 0, jf: 0, k: 0x0005_0000 | 1 },       // EPERM
+    ];
+    let fprog = SockFprog { len: prog.len() as u16, filter: prog.as_ptr() };
+    let ok = unsafe {
+        libc::prctl(libc::PR_SET_NO_NEW_PRIVS, 1, 0, 0, 0) == 0
+            && libc::prctl(libc::PR_SET_SECCOMP, 2 /* SECCOMP_MODE_FILTER */, &fprog as *const SockFprog) == 0
+    };
+    ok
 }
 
 /// make `ptrace(PTRACE_GETREGSET, …)` fail with EIO for this process from now on (seccomp filter)
